@@ -231,6 +231,10 @@ def nan_vector(t, like):
             return shp in oks
         return None
     t = strip(t)
+    if t[0] == 'bin' and t[1] == '/' and strip(t[3]) in NANS:
+        s = shaped(t[2])            # finite / nan is nan
+        if s is not None:
+            return s
     if t[0] == 'bin' and t[1] in ('*', '+', '-'):
         for a, b in ((t[2], t[3]), (t[3], t[2])):
             if strip(b) in NANS:
